@@ -25,7 +25,8 @@ EXPLANATION = ("Path enumeration of SignalNamespace.get_name with symbolic strin
                "been tested absent from and be inserted into the registry on the same path); who-may-name rule over "
                "the four emission files; literal evaluation of the reserved-word table against an embedded copy of "
                "the IEEE keyword lists; parameter flow of the table to the gate; sorted-iteration and entropy-source rules.")
-TECHNIQUE = "path-wise symbolic string def-use (gate argument) + who-may-call + literal table evaluation + parameter flow"
+TECHNIQUE = ("path-wise symbolic string def-use (gate argument) + who-may-call + literal table evaluation + abstract interpr"
+             "etation of the naming pass and of SignalNamespace on model designs (invariance under renumbering, request histories)")
 
 V2005 = """always and assign automatic begin buf bufif0 bufif1 case casex casez cell cmos config deassign default defparam
 design disable edge else end endcase endconfig endfunction endgenerate endmodule endprimitive endspecify endtable endtask
